@@ -21,6 +21,8 @@ pub use crate::{
     stategraph::StateGraph,
     statetable::{Action, StateTable, StateTableError, StateTableErrorKind},
 };
+#[cfg(grmtools_verif)]
+pub use crate::pager::{verif_weakly_compatible, verif_weakly_merge};
 use cfgrammar::yacc::YaccGrammar;
 
 macro_rules! IdxNewtype {
